@@ -372,6 +372,30 @@ def r4(k: Kit) -> None:
                   'expansion can run before _set_tokens', k.loc(pa, n))
 
 
+def r3_file_start(k: Kit) -> None:
+    """Each configuration file starts outside any Host/Match block."""
+    rep = k.rep
+    fi = k.func('config.SSHConfig.parse')
+    g = k.cfg(fi)
+    loops = [n for n in g.nodes if n.kind == 'loop' and
+             isinstance(n.ast, ast.For)]
+    resets = [n.id for n, v in k.stores_to(fi, 'self._matching')
+              if isinstance(v, ast.Constant) and v.value is True]
+    okr = bool(loops) and bool(resets)
+    w = None
+    for lp in loops:
+        w = w or g.path(g.entry, lp.id, blocked_nodes=resets)
+    rep.check(okr and w is None, 'C18.R3',
+              key(fi, 'file starts unconditional'),
+              'parse() re-enables matching before reading the first line '
+              'of each file',
+              'parse() does not reset the block state: a non-matching '
+              'Host/Match block at the end of one file stays in effect for '
+              'the next file of a config list or Include line, whose '
+              'leading (unconditional) options are skipped',
+              fi.loc(fi.node), g.describe_path(w) if w else None)
+
+
 def run(idx, rep, tier):
     k = Kit(idx, rep)
     rep.assumptions += NOT_DECIDED
@@ -384,4 +408,5 @@ def run(idx, rep, tier):
         rep.error('C18.R1', 'handlers', str(exc))
     r2(k)
     r3(k)
+    r3_file_start(k)
     r4(k)
